@@ -73,6 +73,7 @@ def stepDev : List DevDesc → List Bytes → DecSt → DecSt
 /-- `parseDataMessage` + `file.add` for one data record whose header byte is `hb` -/
 def stepData (P : Profile) (hb : Nat) (compressed : Bool) (fields dev : List Bytes) (st : DecSt) : StepRes :=
   let localT := if compressed then (hb / 32) % 4 else hb % 16
+  let useTs : Bool := compressed && decide (st.timestamp ≠ 0)   -- a compressed header needs a reference
   match st.defs.getD localT none with
   | none => .stop (fail st .other)
   | some dm =>
@@ -92,7 +93,7 @@ def stepData (P : Profile) (hb : Nat) (compressed : Bool) (fields dev : List Byt
           match addMsg P m st with
           | none => .stop (panicOut st)
           | some st => .ok st
-      if !compressed ∨ st.timestamp = 0 then body m st
+      if !useTs then body m st
       else
         let off := hb % 32
         let ts : Nat := tsAdvance st.timestamp st.lastOff off
